@@ -343,7 +343,7 @@ def run_dro(spec, ctx):
     base = copy.deepcopy(base)
     base['rows'] = full['rows'][:len(base['rows'])]
     try:
-        BF = DR.build(full)
+        BF = DR.build(full, variant={'split_moments': False})
         fF = BF.model.do_math()
         sname = {'L': 'def', 'Q': 'eco', 'X': 'eco'}[C.cone_class(fF)[0]]
         rF = solve_val(BF.model, sname)
@@ -374,7 +374,10 @@ def run_dro(spec, ctx):
             events.append('support_redefined')
 
     try:
-        BH = DR.build(base, variant={'after_sets': after_sets})
+        split = bool(hr.random() < 0.6)      # the same event declared in two exptset() calls
+        if split:
+            events.append('split_exptset')
+        BH = DR.build(base, variant={'after_sets': after_sets, 'split_moments': split})
         m = BH.model
         if ops['mid']:
             with warnings.catch_warnings():
